@@ -403,6 +403,17 @@ pub fn gen_sg(rng: &mut Rng) -> SG {
             }
         }
     }
+    // a rule that carries the name of a terminal of the same grammar (references are resolved to terminals first);
+    // chosen by the hash of the text, the PRNG stream is not touched
+    let h = fnv(&g.text());
+    if h % 25 == 3 && !g.terms.is_empty() {
+        let k = (h / 25) as usize % g.rules.len();
+        let t = (h / 1000) as usize % g.terms.len();
+        let nm = g.terms[t].name.clone();
+        if !g.rules.iter().any(|r| r.name == nm) {
+            g.rules[k].name = nm;
+        }
+    }
     g
 }
 
@@ -644,7 +655,7 @@ pub fn run_case(g: &SG, wd: &Workdir, rep: &mut Rep, maxlen: usize, only_input: 
             rep.count("compiler_panics_not_judged_here", 1);
         } else {
             // a user symbol named like a sugar helper may be refused (the alternative is to merge it into the helper)
-            let collision = msg.contains("has the name of the rule created for a repetition");
+            let collision = msg.contains("has the name of the rule created for a repetition") || msg.contains("has the name of a terminal");
             rep.count(if msg.contains("Infinite recursion") { "rejected:infinite-recursion" } else if msg.contains("First set empty") { "rejected:unproductive" } else if collision { "rejected:helper-name-collision" } else { "rejected:other" }, 1);
             if !(msg.contains("Infinite recursion") || msg.contains("First set empty") || collision) {
                 rep.harness_error(&format!("unexpected rejection: {}", msg), case0(json!(null)));
